@@ -8,7 +8,7 @@ META = {
     "category": "proof",
     "text": "Kernel-checked theorems about a Lean transcription of impl Ord/PartialEq/Hash for Value: cmp_refines_key (cmpV a b = lexicographic compare of explicit token keys, hence reflexive/antisymmetric/transitive/total/congruent) for every value whose numbers are in range - integers of all four widths, floats as 64-bit patterns with int/float comparisons proved exact through the concrete round-to-nearest-even `as f64` and saturating `as int` casts, strings, bytes, sequences, tuples, iterables, maps, plain objects, nested arbitrarily; C07_partial (== <=> cmp = Equal, == => equal hash items) for NaN-free values with BTreeMap-ordered maps outside the region `a bool faces a number`, where C07_counterexample shows the full statement false on the code (true == 1, cmp = Less, hashes differ: a known finding pinned by the existing tests); filter theorems over an arbitrary item type and total preorder. The transcription is tied to /repo by sending every ordered pair of a ~290-value boundary zoo through Value::cmp, == and Hash and through the Lean model (BTreeMap and IndexMap builds), the laws themselves are evaluated directly on the implementation's answers (rank criterion for the total preorder, == vs Equal, == vs hash, template operators / in / dict lookup), and the filter laws on the outputs for all lists of length <= 5 over a 7-value alphabet with every keyword option, long random lists, and batch/slice run lengths against the model.",
     "design_ref": "DESIGN.md §3 C07",
-    "level_note": "Trusted: Lean kernel; hand transcription of value/mod.rs (Ord, PartialEq, Hash, cmp_f64*, cmp_uncoercible_numbers), ops.rs (coerce, as_f64), argtypes.rs (integer TryFrom) into MJ/Model/{CmpF64,Value,Cmp}.lean and of filters.rs (batch, slice, sort, unique, groupby, min, max, reverse) into MJ/Model/Coll.lean, validated by the correspondence on the zoo (exhaustive over zoo pairs, not over all values); IEEE-754 semantics of the f64 primitives; Rust's stable sort_by is taken to be the unique stable sort (List.mergeSort), BTreeMap/BTreeSet lookups to find an element iff one compares Equal; object identity short-cuts, custom_cmp and Invalid values are not modelled; under preserve_order (IndexMap) the == / hash theorems do not apply (insertion-order findings).",
+    "level_note": "Trusted: Lean kernel; hand transcription of value/mod.rs (Ord, PartialEq, Hash, cmp_f64*, cmp_uncoercible_numbers), ops.rs (coerce, as_f64), argtypes.rs (integer TryFrom) into MJ/Model/{CmpF64,Value,Cmp}.lean and of filters.rs (batch, slice, sort, unique, groupby, min, max, reverse) into MJ/Model/Coll.lean, validated by the correspondence on the zoo (exhaustive over zoo pairs, not over all values); IEEE-754 semantics of the f64 primitives; Rust's stable sort_by is taken to be the unique stable sort (List.mergeSort), BTreeMap/BTreeSet lookups to find an element iff one compares Equal; object identity short-cuts, custom_cmp and Invalid values are not modelled (their pairs are law-checked only); the filters sum / zip / chain / items / list, the sameas test, dotted attribute paths, multi-attribute sort keys and namespace objects are oracle-checked at most; pycompat dict.get is not reachable (contrib feature off in the harness); under preserve_order (IndexMap) the == / hash theorems do not apply (insertion-order findings).",
 }
 
 KINDS = {"u": "Undefined", "n": "None", "t": "Bool", "f": "Bool", "U64": "Number", "I64": "Number", "U128": "Number",
@@ -404,14 +404,22 @@ def run(r):
               "variable, get_path, map/selectattr/rejectattr/groupby/sort/unique with attribute=, get_item_by_index) on maps of 1, 2, 12, 13, 20 "
               "entries (both sides of the small-map fast path) holding one of 20 keys and probed with each of the 20, for ValueMap, HashMap<Value,_>, "
               "BTreeMap/HashMap<String,_>, BTreeMap<Arc<str>,_>, a user Object and a serde-serialized map; run under BTreeMap and IndexMap.  "
-              "A pair is non-trivial when i != j, a list when it has >=2 items, a lookup case when key and probe differ.")
+              "A pair is non-trivial when i != j, a list when it has >=2 items, a lookup case when key and probe differ.  "
+              "Round 3: the zoo also holds the silent undefined, one-shot iterators (rebuilt per operation), user objects of every repr "
+              "(Seq / Map / Plain with custom_cmp), invalid values, NaN / -0.0 / cmp-equal keys in maps; seeded random nested values (depth <=4: "
+              "all scalar kinds incl. random float bit patterns, seq/tuple/iterable/one-shot/user-seq/map/user-map, plus mutated near-copies) in "
+              "batches with every ordered pair of a batch through cmp/==/Hash/PartialOrd and the model; sort / unique / groupby(default) / dictsort / "
+              "select+reject+selectattr+rejectattr with eq ne lt le gt ge / min / max / `in` on seq tuple iterable one-shot user-seq map user-map / "
+              "map literals with repeated keys over a 13-letter alphabet (1, 1.0, 2, 'a', 'A', 'b', none, NaN, -0.0, 0, [1], b'a', u128::MAX) against "
+              "the Lean model output; a second law-checked alphabet mixing strings with UTF-8 and non-UTF-8 bytes.")
     r.assumptions = ["Rust's slice::sort_by is the unique stable sort for a total preorder (List.mergeSort)",
                      "BTreeMap/BTreeSet find an entry iff its key compares Equal (true when Ord is a total order on the keys present)",
                      "f64 primitives (==, <, trunc, as-casts) follow IEEE-754 / the Rust reference (saturating float->int, round-to-nearest-even int->float)",
-                     "values beyond the zoo behave like the model (proved for the model for all values)",
+                     "values beyond the zoo and the random batches behave like the model (proved for the model for all values)",
+                     "str::to_lowercase in `unique` is a parameter of the model (the theorems hold for every lower-casing function); the driver uses ASCII lower-casing, the alphabets are ASCII",
                      "object identity short-cuts (is_same_object) only ever return what the structural comparison of a value with itself returns",
                      "batch/slice counts for which `count` list headers cannot be held in memory but can be reserved are outside the quantifier (resource exhaustion, not a panic)"]
-    r.regen_tables(["VALUE_KIND_ORDER"])
+    r.regen_tables(["VALUE_KIND_ORDER", "C07_CMP_KIND_ALIAS", "C07_VALUE_MAP_STR_SCAN_MAX", "C07_HASH_ZERO_KINDS"])
     r.lean_prove("MJ.Props.C07", "MJ/Audit/C07.lean", extra_targets=["drive_c07"])
     r.exhaustive = False
     for mode, feats in (("btree", ()), ("index", ("preserve_order",))):
